@@ -19,16 +19,20 @@ modes, numeric / categorical load balancer, table plugins with arbitrary recorde
 The repaired defects stay visible as statements about the unguarded operations
 (`par_chunks_zero_panics`, `inject_unguarded_assignment_panics`, C17's `unguarded_*`).
 
-Where the code deviates from "every such query is answered with an error response that echoes the request"
-(findings with counterexamples; keys as in the harness oracle):
-* `pipeline/request-not-echoed` — non-object queries (`error_echoes_request_partial`,
-  `non_object_request_not_echoed_counterexample`);
-* `pipeline/query-unanswered` — the query `[]` under a plugin gets no response
-  (`answered_partial`, `empty_array_unanswered_counterexample`);
-* `pipeline/sibling-responses-lost` — C06.sibling_responses_lost_counterexample (restated here).
-Outside the model (the single-query function is a parameter): the harness oracle also reports
-`search/unknown-origin-accepted` (an out-of-range origin id without destination is answered with an empty
-tree instead of an error).
+Repaired, now positive theorems (the witnesses stay in the harness corpus under their oracle keys):
+* `every_query_answered` — every JSON value offered as a query gets at least one response (`[]` used to be
+  flattened away, key `pipeline/query-unanswered`);
+* `non_object_query_echoed`, `error_echoes_request` — every error response of the input stage echoes the
+  request: a non-object query verbatim, otherwise the (expanded) query on which a plugin failed; never the
+  placeholder `{"error":"unable to display query"}` (key `pipeline/request-not-echoed`).
+Both for plugins that map objects to objects or non-empty arrays of objects — proved for grid search, inject,
+load balancer (`C06.builtin_plugins_keep_objects`), a property of the recorded data for table plugins.
+
+Where the code still deviates (finding with counterexample; key as in the harness oracle):
+* `pipeline/sibling-responses-lost` — `C06.sibling_responses_lost_counterexample`, restated here: "the
+  remaining queries are served" fails for the siblings of a failing expanded query.
+Outside the model (the single-query function is a parameter): the harness oracle checks that out-of-range
+origin / destination ids are answered with an error (`search/unknown-origin-accepted`, repaired by 93e9e2f).
 
 Partial: stack depth, allocation failure, the time a search takes on a huge network, the internals of
 serde_json / rstar / rayon are not modelled.
@@ -161,15 +165,48 @@ theorem every_query_accounted_for {α : Type} (W : WOps α) (cfg : Config) (resp
   · intro e he
     exact ⟨by simp [answer, he], C06.error_response_shape cfg.plugins q e he⟩
 
-/-! ## error responses echo the request — as far as the code does -/
+/-! ## every query is answered, every error response echoes the request -/
+
+/-- **Every query is answered**: whatever JSON value is offered (number, string, `null`, array, `[]`, object
+with any fields) it gets at least one response -/
+theorem every_query_answered (plugins : List Plugin) (hw : ∀ p ∈ plugins, ObjOp (processT p))
+    (respond : Json → Json) (q : Json) : answer plugins respond q ≠ [] :=
+  C06.every_query_answered plugins hw respond q
+
+/-- … in particular under every configuration made of grid search, inject and load balancer -/
+theorem every_query_answered_builtin (plugins : List Plugin) (hb : ∀ p ∈ plugins, ∀ t, p ≠ .table t)
+    (respond : Json → Json) (q : Json) : answer plugins respond q ≠ [] :=
+  C06.every_query_answered plugins (fun p hp => processT_objOp p (hb p hp)) respond q
+
+/-- a query that fails input processing is answered with exactly one response, its error response -/
+theorem failing_query_answered (plugins : List Plugin) (respond : Json → Json) (q e : Json)
+    (h : prepT plugins q = .error e) : answer plugins respond q = [e] := by
+  simp [answer, h]
+
+/-- **A non-object query is echoed verbatim** (fix adb1ee2), whatever the plugins -/
+theorem non_object_query_echoed (plugins : List Plugin) (q : Json) (h : q.isObject = false) :
+    prepT plugins q = .error (.obj [("request", q), ("error", .str "UnexpectedQueryStructure")]) :=
+  prepT_non_object plugins q h
+
+/-- **Every error response of the input stage echoes the request**: the query itself when it is not an
+object; otherwise the query `x` — `q`, or one of the queries the earlier plugins made of `q` — on which plugin
+`p` failed (as `p` left it).  The placeholder request is gone. -/
+theorem error_echoes_request (plugins : List Plugin) (hw : ∀ p ∈ plugins, ObjOp (processT p))
+    (q e : Json) (h : prepT plugins q = .error e) :
+    (q.isObject = false ∧ e = .obj [("request", q), ("error", .str "UnexpectedQueryStructure")]) ∨
+    (∃ pre p post xs x pe, plugins = pre ++ p :: post ∧
+      GridSearch.applyOps (pre.map processT) (.arr [q]) = .ok (.arr xs) ∧ x ∈ xs ∧
+      processT p x = .error pe ∧
+      e = .obj [("request", pe.left.getD x), ("error", .str pe.kind)]) :=
+  C06.error_echoes_request plugins hw q e h
 
 /-- an object query rejected by the first plugin is echoed verbatim (grid search, inject, load balancer: they
 fail before touching the query) -/
-theorem error_echoes_request_partial (p : Plugin) (rest : List Plugin) (kvs : List (String × Json))
+theorem error_echoes_request_first_plugin (p : Plugin) (rest : List Plugin) (kvs : List (String × Json))
     (e : PErr) (h : processT p (.obj kvs) = .error e) (hl : e.left = none) :
     prepT (p :: rest) (.obj kvs)
       = .error (.obj [("request", .obj kvs), ("error", .str e.kind)]) := by
-  simp [prepT, GridSearch.applyInputPlugins, GridSearch.applyOps, GridSearch.jsonArrayOp,
+  simp [prepT, GridSearch.applyInputPlugins, Json.isObject, GridSearch.applyOps, GridSearch.jsonArrayOp,
     GridSearch.mapOp, h, errorResponse, hl]
 
 theorem injectGuard_left {key : String} {overwrite : Bool} {q : Json} {e : PErr}
@@ -229,35 +266,6 @@ theorem own_plugins_fail_clean (p : Plugin) (q : Json) (e : PErr) (h : processT 
       simp only [hc, addWeight] at h
       cases q <;> simp at h <;> (subst h; rfl)
   | table t => exact absurd rfl (hp t)
-
-/- Full statement (false of the code): for every JSON value `q` and every plugin list, if `prepT plugins q =
-.error e` then `e`'s request is `q` (or a query `q` expands into). -/
-
-/-- **Finding `pipeline/request-not-echoed`**: without plugins every non-object, non-array query is answered
-with the placeholder request; with a plugin first in line that does not reject non-objects (grid search) the
-same happens at the final flatten -/
-theorem non_object_request_not_echoed_counterexample :
-    (∀ q : Json, q.isObject = false → q.isArray = false →
-      prepT [] q = .error (.obj [("request", noRequest), ("error", .str invariantKind)])) ∧
-    prepT [.gridSearch] (.str "abc")
-      = .error (.obj [("request", noRequest), ("error", .str invariantKind)]) :=
-  ⟨C06.request_not_echoed_counterexample.2, by rfl⟩
-
-/-- a query that passes input processing with at least one expanded query is answered -/
-theorem answered_partial (plugins : List Plugin) (respond : Json → Json) (q : Json) (qs : List Json)
-    (h : prepT plugins q = .ok qs) (hne : qs ≠ []) : answer plugins respond q ≠ [] := by
-  simp [answer, h, hne]
-
-/-- … and so is every query that fails it -/
-theorem failing_query_answered (plugins : List Plugin) (respond : Json → Json) (q e : Json)
-    (h : prepT plugins q = .error e) : answer plugins respond q = [e] := by
-  simp [answer, h]
-
-/-- **Finding `pipeline/query-unanswered`**: the query `[]` under the grid-search plugin (any plugin that
-lets it through) is flattened away: no response, not even an error -/
-theorem empty_array_unanswered_counterexample (respond : Json → Json) :
-    prepT [.gridSearch] (.arr []) = .ok [] ∧ answer [.gridSearch] respond (.arr []) = [] :=
-  ⟨by rfl, by rfl⟩
 
 /-- **Finding `pipeline/sibling-responses-lost`** (C06): one failing expanded query takes its siblings with
 it — "the remaining queries are served" fails for them -/
